@@ -1,6 +1,36 @@
 /-
-  PrtpyProofs.MaxMin3 — property C08, the exact max-min guarantee of LPT (`greedy`), continued
-  (see PrtpyProofs.MaxMin and PrtpyProofs.LPT43).
+  PrtpyProofs.MaxMin3 — property C08, the exact max-min guarantee of LPT (`greedy`):
+  "LPT's smallest sum is at least `(3k−1)/(4k−2)` of the optimal smallest sum" (Csirik–Kellerer–Woeginger 1992).
+  Continues PrtpyProofs.MaxMin and PrtpyProofs.LPT43 (`run`, `peel_first_pair`, `run_maxmin_cert`, `run_spread`).
+
+  Proved here
+  -----------
+  * `greedy_maxmin_two`    (`k = 2`):  `5·OPT ≤ 6·L`      — as requested, unconditional.
+  * `greedy_maxmin_three`  (`k = 3`):  `8·OPT ≤ 10·L`     — as requested, unconditional.
+  * every `k`:
+      - `greedy_maxmin_partial_large`: the exact bound when every item exceeds `k·OPT/(4k−2)`;
+        more generally `greedy_maxmin_partial_half_plus`: `L ≥ OPT/2 + t` when all items exceed `t ∈ [OPT/4, OPT/2]`;
+      - `greedy_maxmin_partial` (`run_maxmin_of_mixed`): the exact bound for all `k ≤ K`, *assuming* one precisely
+        described configuration (the "mixed case") is handled for `4 ≤ k ≤ K`;
+      - `greedy_maxmin_partial_three_quarters`: the ratio `3/4` for `k ≤ 3`.
+    The full `greedy_maxmin` (all `k`) is NOT proved: see the comment at `greedy_maxmin_partial`.
+
+  Structure of the proofs
+  -----------------------
+  Everything is about `run v k xs`, the LPT loop on an ordered list, and an arbitrary cover `Q` (`k` bins of sum
+  `≥ W`); the claim is `3k·W + 2·L ≤ 4k·L + W` (`L` the smallest sum of LPT).
+  §1  four invariants of the LPT loop: `PrefInv` (every proper prefix of a bin has sum `≤` the current minimum),
+      `TailInv` (items that are not first in their bin are `≤` the `(k+1)`-th value), `SortedInv`, and `A2Inv`
+      (the LPT rule seen from the other bins: when the last item `c` of a bin was placed on a load `m`, every
+      other bin already held items `≥ c` of total `≥ m`, and has received only items `≤ c` since).
+  §2  the counting argument: with the weight `#items + #{items ≥ W/2} + #{items ≥ W}` every bin of sum `≥ W` weighs
+      `≥ 3` (`wt_cover`), whereas the LPT bins weigh `≤ 3` and a bin of smallest sum `≤ 2` (`wt_bin`, `count_core`).
+  §3  all items large: `run_large` (`2·L ≥ W + 2·t` if all items exceed `t`, `W/4 ≤ t ≤ W/2`), induction over `k`
+      with `peel_first_pair`; `run_large_exact` by scaling.
+  §4  induction over the prefixes: if the last item lands on the bin of smallest final sum the bound is inherited
+      (`run_snoc_onmin`).
+  §5  two bins, §7 three bins (`three_mixed`: the total `≥ 3·W` forces that after the last item of the heavy bin only
+      one more item arrives), §8 the reduction of the general theorem to the mixed case.
 -/
 import Mathlib.Tactic.Linarith
 import Mathlib.Tactic.Ring
@@ -131,6 +161,121 @@ theorem run_tailInv {v : α → Nat} {k : Nat} (hk : 0 < k) {S : List α}
       rw [hrest'] at hS
       intro a ha
       exact (List.pairwise_append.1 hS).2.2 a ha x (by simp)
+
+/-- the items of every bin are in non-increasing order -/
+def SortedInv (v : α → Nat) (b : Bins α) : Prop := ∀ l ∈ b.lists, l.Pairwise (fun a c => v c ≤ v a)
+
+theorem sortedInv_step {v : α → Nat} {k : Nat} {b : Bins α} {done : List α}
+    (hv : Part.Valid v k b done) (hinv : SortedInv v b) (x : α) (hx : ∀ a ∈ done, v x ≤ v a) :
+    SortedInv v (greedyStep v b x) := by
+  obtain ⟨hperm, _, _⟩ := hv
+  intro l' hl'
+  rcases Part.mem_modify hl' with h | ⟨hi, rfl⟩
+  · exact hinv l' h
+  · rw [List.pairwise_append]
+    refine ⟨hinv _ (List.getElem_mem hi), by simp, ?_⟩
+    intro a ha c hc
+    simp only [List.mem_cons, List.not_mem_nil, or_false] at hc
+    rw [hc]
+    exact hx a (hperm.mem_iff.1 (List.mem_flatten.2 ⟨_, List.getElem_mem hi, ha⟩))
+
+theorem run_sortedInv {v : α → Nat} {k : Nat} (hk : 0 < k) :
+    ∀ xs : List α, xs.Pairwise (fun a c => v c ≤ v a) → SortedInv v (run v k xs) := by
+  intro xs
+  induction xs using Oracle.rev_induction with
+  | nil =>
+    intro _ l hl
+    simp only [run, List.foldl_nil, Bins.new, List.mem_replicate] at hl
+    rw [hl.2]; simp
+  | snoc P x ih =>
+    intro hS
+    obtain ⟨hSP, _, hPx⟩ := List.pairwise_append.1 hS
+    rw [run_snoc]
+    exact sortedInv_step (run_valid v hk P) (ih hSP) x (fun a ha => hPx a ha x (by simp))
+
+/-- **The LPT rule, seen from the other bins.**  When the last item `c` of bin `i` was put there (on the items
+    `pre`), every other bin `j` held a prefix of its present content, of sum at least the sum of `pre`, made of
+    items `≥ c`; everything that bin `j` received since is `≤ c`. -/
+def A2Inv (v : α → Nat) (b : Bins α) : Prop :=
+  ∀ (i j : Nat) (pre : List α) (c : α) (lj : List α), i ≠ j → b.lists[i]? = some (pre ++ [c]) →
+    b.lists[j]? = some lj →
+    ∃ m, m ≤ lj.length ∧ binSum v pre ≤ binSum v (lj.take m) ∧ (∀ u ∈ lj.drop m, v u ≤ v c) ∧
+      (∀ u ∈ lj.take m, v c ≤ v u)
+
+theorem a2Inv_step {v : α → Nat} {k : Nat} (hk : 0 < k) {b : Bins α} {done : List α}
+    (hv : Part.Valid v k b done) (hinv : A2Inv v b) (x : α) (hx : ∀ a ∈ done, v x ≤ v a) :
+    A2Inv v (greedyStep v b x) := by
+  obtain ⟨hperm, hlists, hcons⟩ := hv
+  have hc : b.sums = b.lists.map (binSum v) := hcons
+  have hlen : b.sums.length = k := by rw [Part.consistent_length v hcons, hlists]
+  have hne : b.sums ≠ [] := by intro h0; rw [h0] at hlen; simp at hlen; omega
+  have hlt := Part.argmin_lt hne
+  have hJ : argmin b.sums < b.lists.length := by omega
+  have hmemdone : ∀ (n : Nat) (l : List α), b.lists[n]? = some l → ∀ a ∈ l, a ∈ done := by
+    intro n l hl a ha
+    exact hperm.mem_iff.1 (List.mem_flatten.2 ⟨l, List.mem_of_getElem? hl, ha⟩)
+  intro i j pre c lj hij hi hj
+  simp only [greedyStep, Part.add_lists] at hi hj
+  by_cases hiJ : i = argmin b.sums
+  · -- bin `i` has just received `x`
+    subst hiJ
+    rw [List.getElem?_modify_eq, List.getElem?_eq_getElem hJ] at hi
+    simp only [Option.map_eq_map, Option.map_some, Option.some.injEq] at hi
+    obtain ⟨hpre, hcx⟩ := List.append_inj' hi rfl
+    have hcx' : c = x := by simpa using hcx.symm
+    subst hcx'
+    rw [List.getElem?_modify_ne _ _ hij] at hj
+    have hjlt : j < b.lists.length := by
+      rcases Nat.lt_or_ge j b.lists.length with h | h
+      · exact h
+      · rw [List.getElem?_eq_none h] at hj; cases hj
+    have hjl : b.lists[j] = lj := by
+      rw [List.getElem?_eq_getElem hjlt] at hj; simpa using hj
+    refine ⟨lj.length, Nat.le_refl _, ?_, by simp, ?_⟩
+    · rw [List.take_length, ← hpre]
+      have h1 : b.sums[argmin b.sums] = binSum v b.lists[argmin b.sums] := by simp [hc]
+      have h2 : b.sums[j]'(by omega) = binSum v b.lists[j] := by simp [hc]
+      rw [← h1, ← hjl, ← h2, Part.getElem_argmin hlt]
+      exact Part.minL_le (List.getElem_mem _)
+    · rw [List.take_length]
+      intro u hu
+      exact hx u (hmemdone j lj hj u hu)
+  · rw [List.getElem?_modify_ne _ _ (Ne.symm hiJ)] at hi
+    have hcdone : c ∈ done := hmemdone i _ hi c (by simp)
+    by_cases hjJ : j = argmin b.sums
+    · subst hjJ
+      rw [List.getElem?_modify_eq, List.getElem?_eq_getElem hJ] at hj
+      simp only [Option.map_eq_map, Option.map_some, Option.some.injEq] at hj
+      obtain ⟨m, hm, h1, h2, h3⟩ := hinv i (argmin b.sums) pre c _ hij hi (List.getElem?_eq_getElem hJ)
+      subst hj
+      refine ⟨m, by simp only [List.length_append]; omega, ?_, ?_, ?_⟩
+      · rw [List.take_append_of_le_length hm]; exact h1
+      · intro u hu
+        rw [List.drop_append_of_le_length hm] at hu
+        rcases List.mem_append.1 hu with hu | hu
+        · exact h2 u hu
+        · simp only [List.mem_cons, List.not_mem_nil, or_false] at hu
+          rw [hu]; exact hx c hcdone
+      · rw [List.take_append_of_le_length hm]; exact h3
+    · rw [List.getElem?_modify_ne _ _ (Ne.symm hjJ)] at hj
+      exact hinv i j pre c lj hij hi hj
+
+theorem run_a2Inv {v : α → Nat} {k : Nat} (hk : 0 < k) :
+    ∀ xs : List α, xs.Pairwise (fun a c => v c ≤ v a) → A2Inv v (run v k xs) := by
+  intro xs
+  induction xs using Oracle.rev_induction with
+  | nil =>
+    intro _ i j pre c lj _ hi _
+    simp only [run, List.foldl_nil, Bins.new] at hi
+    have := List.mem_of_getElem? hi
+    simp only [List.mem_replicate] at this
+    have h2 := congrArg List.length this.2
+    simp at h2
+  | snoc P x ih =>
+    intro hS
+    obtain ⟨hSP, _, hPx⟩ := List.pairwise_append.1 hS
+    rw [run_snoc]
+    exact a2Inv_step hk (run_valid v hk P) (ih hSP) x (fun a ha => hPx a ha x (by simp))
 
 /-! ## 2. The counting argument -/
 
@@ -589,5 +734,536 @@ example : 20 + 2 * 6 ≤ 2 * minL (greedy id 2 [10, 10, 7, 7, 7]).sums :=
   greedy_maxmin_partial_half_plus (v := id) (by decide) optmin_10_10_7_7_7 6 (by decide) (by decide) (by decide)
 example : 5 * 20 ≤ 6 * minL (greedy id 2 [10, 10, 7, 7, 7]).sums :=
   greedy_maxmin_two (v := id) optmin_10_10_7_7_7
+
+/-! ## 7. Three bins -/
+
+theorem wt_scale {c : Nat} (hc : 0 < c) (W : Nat) (g : List Nat) :
+    wt (c * W) (g.map (c * ·)) = wt W g := by
+  have e1 : ((fun u => decide (c * W ≤ 2 * u)) ∘ fun x => c * x) = fun u => decide (W ≤ 2 * u) := by
+    funext u
+    simp only [Function.comp]
+    have : 2 * (c * u) = c * (2 * u) := by rw [Nat.mul_left_comm]
+    rw [this]
+    exact decide_eq_decide.2 (Nat.mul_le_mul_left_iff hc)
+  have e2 : ((fun u => decide (c * W ≤ u)) ∘ fun x => c * x) = fun u => decide (W ≤ u) := by
+    funext u
+    simp only [Function.comp]
+    exact decide_eq_decide.2 (Nat.mul_le_mul_left_iff hc)
+  simp only [wt, List.length_map, List.countP_map, e1, e2]
+
+/-- `wt_bin` for three bins: `L < (4/5)·W`, every item exceeds `(3/10)·W` -/
+theorem wt_bin3 {v : α → Nat} {W L : Nat} (hL : 10 * L < 8 * W) (l : List α)
+    (hpre : ∀ n, n < l.length → binSum v (l.take n) ≤ L) (htail : ∀ c ∈ l.tail, 2 * v c < W)
+    (hbig : ∀ c ∈ l, 3 * W < 10 * v c) :
+    wt W (l.map v) ≤ 3 ∧ (binSum v l ≤ L → wt W (l.map v) ≤ 2) := by
+  have key := wt_bin (v := fun a => 10 * v a) (W := 10 * W) (t := 3 * W) (L := 10 * L)
+    (by omega) (by omega) (by omega) l
+    (fun n hn => by rw [Scale.binSum_scale]; exact Nat.mul_le_mul_left _ (hpre n hn))
+    (fun c hc => by have := htail c hc; omega) hbig
+  have e : l.map (fun a => 10 * v a) = (l.map v).map (10 * ·) := by rw [List.map_map]; rfl
+  rw [e, wt_scale (by decide), Scale.binSum_scale] at key
+  exact ⟨key.1, fun h => key.2 (Nat.mul_le_mul_left _ h)⟩
+
+theorem mem_tail_append_left {β : Type} {l : List β} {a c : β} (h : c ∈ l.tail) : c ∈ (l ++ [a]).tail := by
+  cases l with
+  | nil => simp at h
+  | cons b t => simp only [List.cons_append, List.tail_cons, List.mem_append] at h ⊢; exact Or.inl h
+
+/-- **Three bins, the mixed case** (static form).  Bin `B = preB ++ [z]` exceeds the smallest sum `L` by more
+    than `(3/10)·W`, bin `C = lC' ++ [x]` ends with the smallest item `x ≤ (3/10)·W`, bin `M` has sum `≤ L`,
+    `L < (4/5)·W`, and the three bins hold at least `3·W`.  Then after `z` was placed only `x` has arrived:
+    `M` and `lC'` consist of items `≥ z`, and the weights of the three bins are at most `3, 3, 2`. -/
+theorem three_mixed {v : α → Nat} {W L : Nat} (hL : 10 * L < 8 * W)
+    (preB : List α) (z : α) (lC' : List α) (x : α) (lM : List α)
+    (hvol : 3 * W ≤ binSum v (preB ++ [z]) + binSum v (lC' ++ [x]) + binSum v lM)
+    (hM : binSum v lM ≤ L) (hC' : binSum v lC' ≤ L) (hpreB : binSum v preB ≤ L)
+    (hx : 10 * v x ≤ 3 * W) (hz2 : 2 * v z ≤ L)
+    (hB : 10 * L + 3 * W < 10 * binSum v (preB ++ [z]))
+    (hminC : ∀ u ∈ lC', v x ≤ v u) (hminM : ∀ u ∈ lM, v x ≤ v u)
+    (hsB : ∀ u ∈ preB, v z ≤ v u)
+    (a2M : ∃ m, m ≤ lM.length ∧ binSum v preB ≤ binSum v (lM.take m) ∧ (∀ u ∈ lM.drop m, v u ≤ v z) ∧
+      (∀ u ∈ lM.take m, v z ≤ v u))
+    (a2C : ∃ m, m ≤ (lC' ++ [x]).length ∧ binSum v preB ≤ binSum v ((lC' ++ [x]).take m) ∧
+      (∀ u ∈ (lC' ++ [x]).drop m, v u ≤ v z) ∧ (∀ u ∈ (lC' ++ [x]).take m, v z ≤ v u))
+    (prefB : ∀ n, n < (preB ++ [z]).length → binSum v ((preB ++ [z]).take n) ≤ L)
+    (prefC : ∀ n, n < (lC' ++ [x]).length → binSum v ((lC' ++ [x]).take n) ≤ L)
+    (prefM : ∀ n, n < lM.length → binSum v (lM.take n) ≤ L)
+    (tailB : ∀ c ∈ (preB ++ [z]).tail, 2 * v c ≤ L) (tailC : ∀ c ∈ (lC' ++ [x]).tail, 2 * v c ≤ L)
+    (tailM : ∀ c ∈ lM.tail, 2 * v c ≤ L) :
+    wt W ((preB ++ [z]).map v) ≤ 3 ∧ wt W ((lC' ++ [x]).map v) ≤ 3 ∧ wt W (lM.map v) ≤ 2 := by
+  rw [Oracle.binSum_concat] at hvol hB
+  rw [Oracle.binSum_concat] at hvol
+  have hzbig : 3 * W < 10 * v z := by omega
+  refine ⟨?_, ?_, ?_⟩
+  · -- bin B
+    refine (wt_bin3 hL _ prefB (fun c hc => by have := tailB c hc; omega) ?_).1
+    intro c hc
+    rcases List.mem_append.1 hc with hc | hc
+    · have := hsB c hc; omega
+    · simp only [List.mem_cons, List.not_mem_nil, or_false] at hc; rw [hc]; exact hzbig
+  · -- bin C
+    obtain ⟨m, hm, h1, h2, h3⟩ := a2C
+    simp only [List.length_append, List.length_cons, List.length_nil] at hm
+    rcases Nat.lt_or_ge m lC'.length with hlt | hge
+    · -- two items arrived after `z`: impossible
+      exfalso
+      have hd : (lC' ++ [x]).drop m = lC'.drop m ++ [x] := List.drop_append_of_le_length (by omega)
+      have hne : lC'.drop m ≠ [] := by
+        intro h0
+        have := congrArg List.length h0
+        simp only [List.length_drop, List.length_nil] at this
+        omega
+      obtain ⟨u, t, hu⟩ := List.exists_cons_of_ne_nil hne
+      have hu' : u ∈ lC' := List.mem_of_mem_drop (by rw [hu]; simp)
+      have hux := hminC u hu'
+      have hsplit : binSum v (lC' ++ [x]) =
+          binSum v ((lC' ++ [x]).take m) + binSum v ((lC' ++ [x]).drop m) := by
+        rw [← Part.binSum_append, List.take_append_drop]
+      rw [hd, hu] at hsplit
+      simp only [List.cons_append, Part.binSum_cons, Oracle.binSum_concat] at hsplit
+      omega
+    · rcases Nat.lt_or_ge lC'.length m with hgt | hle
+      · -- `x` itself would be `≥ z`
+        exfalso
+        have : (lC' ++ [x]).take m = lC' ++ [x] := List.take_of_length_le (by simp; omega)
+        rw [this] at h3
+        have := h3 x (by simp)
+        omega
+      · have hmeq : m = lC'.length := by omega
+        subst hmeq
+        rw [List.take_left'  rfl] at h3
+        have hC := wt_bin3 hL lC'
+          (fun n hn => by
+            have := prefC n (by simp; omega)
+            rwa [List.take_append_of_le_length (by omega)] at this)
+          (fun c hc => by have := tailC c (mem_tail_append_left hc); omega)
+          (fun c hc => by have := h3 c hc; omega)
+        have h4 := hC.2 hC'
+        have e1 : decide (W ≤ 2 * v x) = false := by simp; omega
+        have e2 : decide (W ≤ v x) = false := by simp; omega
+        have hwx : wt W [v x] = 1 := by simp [wt, e1, e2]
+        rw [List.map_append, wt_append, List.map_cons, List.map_nil, hwx]
+        omega
+  · -- bin M
+    obtain ⟨m, hm, h1, h2, h3⟩ := a2M
+    by_cases hd : lM.drop m = []
+    · have ht : lM.take m = lM := by
+        have := List.take_append_drop m lM
+        rw [hd, List.append_nil] at this
+        exact this
+      rw [ht] at h3
+      exact (wt_bin3 hL lM prefM (fun c hc => by have := tailM c hc; omega)
+        (fun c hc => by have := h3 c hc; omega)).2 hM
+    · exfalso
+      obtain ⟨u, t, hu⟩ := List.exists_cons_of_ne_nil hd
+      have hu' : u ∈ lM := List.mem_of_mem_drop (by rw [hu]; simp)
+      have hux := hminM u hu'
+      have hsplit : binSum v lM = binSum v (lM.take m) + binSum v (lM.drop m) := by
+        rw [← Part.binSum_append, List.take_append_drop]
+      rw [hu, Part.binSum_cons] at hsplit
+      omega
+
+theorem getD_pos_lt (l : List Nat) (n : Nat) (h : 0 < l.getD n 0) : n < l.length := by
+  apply Nat.lt_of_not_le
+  intro hle
+  have : l[n]? = none := List.getElem?_eq_none hle
+  simp [List.getD_eq_getElem?_getD, this] at h
+
+theorem getD_eq_getElem' (l : List Nat) (n : Nat) (h : n < l.length) : l.getD n 0 = l[n] := by
+  simp [List.getD_eq_getElem?_getD, h]
+
+theorem sum_three (s : List Nat) (hs : s.length = 3) (a b c : Nat) (ha : a < 3) (hb : b < 3) (hc : c < 3)
+    (hab : a ≠ b) (hac : a ≠ c) (hbc : b ≠ c) :
+    sumL s = s[a]'(by omega) + s[b]'(by omega) + s[c]'(by omega) := by
+  match s, hs with
+  | [s0, s1, s2], _ =>
+    have ha' : a = 0 ∨ a = 1 ∨ a = 2 := by omega
+    have hb' : b = 0 ∨ b = 1 ∨ b = 2 := by omega
+    have hc' : c = 0 ∨ c = 1 ∨ c = 2 := by omega
+    rcases ha' with rfl | rfl | rfl <;> rcases hb' with rfl | rfl | rfl <;> rcases hc' with rfl | rfl | rfl <;>
+      first
+        | (exfalso; omega)
+        | (simp [sumL]; omega)
+
+theorem cover_total {W k : Nat} {vals : List Nat} (Q : List (List Nat)) (hQk : Q.length = k)
+    (hQp : Q.flatten.Perm vals) (hQ : ∀ l ∈ Q, W ≤ sumL l) : k * W ≤ sumL vals := by
+  rw [← Part.sumL_perm hQp, sumL_flatten, ← hQk]
+  have := Part.length_mul_le_sumL (Q.map sumL) W 0 (fun a ha => by
+    obtain ⟨l, hl, rfl⟩ := List.mem_map.1 ha
+    have := hQ l hl; omega)
+  simpa using this
+
+/-- **Three bins, exact constant `4/5`** for the LPT loop on an ordered list, against an arbitrary cover.
+
+    Induction over the prefixes.  Let `x` be the last (smallest) item and `L` the smallest sum.
+    * the smallest sum grows by `x`: `run_snoc_onmin`;
+    * the fourth value exceeds `L/2`: peel the first pair and use the theorem for two bins;
+    * every bin with two items is within `(3/10)·W` of `L`: the certificate `run_maxmin_cert`;
+    * `x > (3/10)·W`: all items are large, `run_large_exact`;
+    * otherwise (`three_mixed`) one bin `B` exceeds `L` by more than `(3/10)·W`, the bin `C` of `x` and the bin `M` of
+      smallest sum are the other two, and if `L < (4/5)·W` the total `≥ 3·W` forces the situation of
+      `three_mixed`, where the weights of the bins are `≤ 3, 3, 2`: impossible (`count_core`). -/
+theorem run_maxmin_three {v : α → Nat} : ∀ (xs : List α), xs.Pairwise (fun a c => v c ≤ v a) →
+    ∀ (W : Nat) (Q : List (List Nat)), Q.length = 3 → Q.flatten.Perm (xs.map v) → (∀ l ∈ Q, W ≤ sumL l) →
+    3 * 3 * W + 2 * minL (run v 3 xs).sums ≤ 4 * 3 * minL (run v 3 xs).sums + W := by
+  intro xs
+  induction xs using Oracle.rev_induction with
+  | nil =>
+    intro _ W Q hQk hQp hQ
+    have := cover_nil_level (by decide) Q hQk (by simpa using hQp) hQ
+    omega
+  | snoc P x ih =>
+    intro hS W Q hQk hQp hQ
+    have hk : 0 < 3 := by decide
+    obtain ⟨hSP, _, hPx⟩ := List.pairwise_append.1 hS
+    by_cases hT : minL (run v 3 (P ++ [x])).sums = minL (run v 3 P).sums + v x
+    · exact run_snoc_onmin hk P x Q hQk hQp hQ (fun W' Q' h1 h2 h3 => ih hSP W' Q' h1 h2 h3) hT
+    apply Classical.byContradiction
+    intro hcon
+    have hL : 10 * minL (run v 3 (P ++ [x])).sums < 8 * W := by omega
+    -- peel the first pair?
+    by_cases hy : minL (run v 3 (P ++ [x])).sums < 2 * ((P ++ [x]).map v).getD 3 0
+    · have hklt' := getD_pos_lt ((P ++ [x]).map v) 3 (by omega)
+      have hklt : 2 + 1 < (P ++ [x]).length := by simpa using hklt'
+      have ey : ((P ++ [x]).map v).getD 3 0 = v (P ++ [x])[2 + 1] := by
+        rw [getD_eq_getElem' _ _ hklt', List.getElem_map]
+      rw [ey] at hy
+      obtain ⟨ys, hsub, hL', _, Q', hQ'k, hQ'p, hQ'⟩ :=
+        peel_first_pair (k' := 2) (by decide) hS hklt hy Q hQk hQp hQ
+      have hL'' : minL (run v 2 ys).sums = minL (run v 3 (P ++ [x])).sums := hL'
+      have key := run_maxmin_two ys (hS.sublist hsub) W Q' hQ'k hQ'p hQ'
+      rw [hL''] at key
+      have := arith_exact_step (k' := 2) (by decide) key
+      omega
+    -- certificate?
+    by_cases hcert : ∀ l ∈ (run v 3 (P ++ [x])).lists,
+        l.length ≤ 1 ∨ binSum v l ≤ minL (run v 3 (P ++ [x])).sums + 3 * W / 10
+    · exact hcon (run_maxmin_cert hk Q hQk hQp hQ (3 * W / 10) hcert (by omega))
+    -- all items large?
+    by_cases hxbig : 3 * W < 10 * v x
+    · refine hcon (run_large_exact hk hS Q hQk hQp hQ ?_)
+      intro a ha
+      have hax : v x ≤ v a := by
+        rcases List.mem_append.1 ha with ha | ha
+        · exact hPx a ha x (by simp)
+        · simp at ha; rw [ha]
+      omega
+    -- the mixed case
+    simp only [not_forall, not_or, Nat.not_le] at hcert
+    obtain ⟨lB, hlB, hlen2, hBbig⟩ := hcert
+    -- the state
+    obtain ⟨hperm, hlists, hcons⟩ := run_valid v hk (P ++ [x])
+    have hc : (run v 3 (P ++ [x])).sums = (run v 3 (P ++ [x])).lists.map (binSum v) := hcons
+    obtain ⟨_, hlistsP, hconsP⟩ := run_valid v hk P
+    have hcP : (run v 3 P).sums = (run v 3 P).lists.map (binSum v) := hconsP
+    have hpref := run_prefInv v hk (P ++ [x])
+    have htl := run_tailInv hk hS (getD_spec v 3 hS) (P ++ [x]) [] (by simp)
+    have hsort := run_sortedInv hk (P ++ [x]) hS
+    have ha2 := run_a2Inv hk (P ++ [x]) hS
+    have hslen := run_sums_length v hk (P ++ [x])
+    have hslenP := run_sums_length v hk P
+    have hne := run_sums_ne_nil v hk (P ++ [x])
+    have hneP := run_sums_ne_nil v hk P
+    have hmono := run_min_mono v hk P [x]
+    -- indices
+    obtain ⟨iB, hiB, hiBl⟩ := List.mem_iff_getElem.1 hlB
+    have hj := Part.argmin_lt hneP
+    have hi0 := Part.argmin_lt hne
+    generalize hjdef : argmin (run v 3 P).sums = j at hj
+    generalize hi0def : argmin (run v 3 (P ++ [x])).sums = i0 at hi0
+    have hLi0 : (run v 3 (P ++ [x])).sums[i0] = minL (run v 3 (P ++ [x])).sums := by
+      subst hi0def; exact Part.getElem_argmin hi0
+    have hLPj : (run v 3 P).sums[j] = minL (run v 3 P).sums := by
+      subst hjdef; exact Part.getElem_argmin hj
+    have hnl : (run v 3 (P ++ [x])).lists = (run v 3 P).lists.modify j (· ++ [x]) := by
+      rw [run_snoc]; simp only [greedyStep, Part.add_lists, hjdef]
+    have hns : (run v 3 (P ++ [x])).sums = (run v 3 P).sums.modify j (· + v x) := by
+      rw [run_snoc]; simp only [greedyStep, Part.add_sums, hjdef]
+    have hjl : j < (run v 3 P).lists.length := by omega
+    have hlC : (run v 3 (P ++ [x])).lists[j]? = some ((run v 3 P).lists[j] ++ [x]) := by
+      rw [hnl, List.getElem?_modify_eq, List.getElem?_eq_getElem hjl]; rfl
+    have hsj : (run v 3 (P ++ [x])).sums[j]'(by omega) = minL (run v 3 P).sums + v x := by
+      have : (run v 3 (P ++ [x])).sums[j]? = some (minL (run v 3 P).sums + v x) := by
+        rw [hns, List.getElem?_modify_eq, List.getElem?_eq_getElem (by omega), hLPj]; rfl
+      rw [List.getElem?_eq_getElem (by omega)] at this
+      simpa using this
+    have hsumof : ∀ (n : Nat) (hn : n < (run v 3 (P ++ [x])).lists.length),
+        (run v 3 (P ++ [x])).sums[n]'(by omega) = binSum v (run v 3 (P ++ [x])).lists[n] := by
+      intro n hn; simp [hc]
+    have hlCl : (run v 3 (P ++ [x])).lists[j]'(by omega) = (run v 3 P).lists[j] ++ [x] := by
+      rw [List.getElem?_eq_getElem (by omega)] at hlC; simpa using hlC
+    have hsC' : binSum v (run v 3 P).lists[j] = minL (run v 3 P).sums := by
+      rw [← hLPj]; simp [hcP]
+    -- the three bins are different
+    have hi0j : i0 ≠ j := by
+      intro e
+      subst e
+      rw [hsj] at hLi0
+      exact hT hLi0.symm
+    have hBsum := hsumof iB hiB
+    rw [hiBl] at hBsum
+    have hiBi0 : iB ≠ i0 := by
+      intro e
+      subst e
+      omega
+    have hiBj : iB ≠ j := by
+      intro e
+      subst e
+      rw [hsj] at hBsum
+      omega
+    have hiB3 : iB < 3 := by omega
+    have hj3 : j < 3 := by omega
+    have hi03 : i0 < 3 := by omega
+    -- bin B
+    have hBne : lB ≠ [] := by intro h0; rw [h0] at hlen2; simp at hlen2
+    have hBsplit : lB = lB.dropLast ++ [lB.getLast hBne] := (List.dropLast_append_getLast hBne).symm
+    generalize lB.dropLast = preB at hBsplit
+    generalize lB.getLast hBne = z at hBsplit
+    subst hBsplit
+    have hpreBne : preB ≠ [] := by
+      intro h0; rw [h0] at hlen2; simp at hlen2
+    have hztail : z ∈ (preB ++ [z]).tail := by
+      cases preB with
+      | nil => exact absurd rfl hpreBne
+      | cons a t => simp
+    -- the total
+    have htot := cover_total Q hQk hQp hQ
+    have hsumall : sumL (run v 3 (P ++ [x])).sums = binSum v (P ++ [x]) := run_sums_sum v hk (P ++ [x])
+    rw [sum_three _ hslen iB j i0 hiB3 hj3 hi03 hiBj hiBi0 (Ne.symm hi0j), hBsum, hsj, hLi0] at hsumall
+    -- membership of items
+    have hxmin : ∀ (n : Nat) (hn : n < (run v 3 (P ++ [x])).lists.length),
+        ∀ u ∈ (run v 3 (P ++ [x])).lists[n], v x ≤ v u := by
+      intro n hn u hu
+      have : u ∈ P ++ [x] := hperm.mem_iff.1 (List.mem_flatten.2 ⟨_, List.getElem_mem hn, hu⟩)
+      rcases List.mem_append.1 this with h | h
+      · exact hPx u h x (by simp)
+      · simp at h; rw [h]
+    have hy2 : ∀ (n : Nat) (hn : n < (run v 3 (P ++ [x])).lists.length),
+        ∀ c ∈ ((run v 3 (P ++ [x])).lists[n]).tail, 2 * v c ≤ minL (run v 3 (P ++ [x])).sums := by
+      intro n hn c hc'
+      have := htl _ (List.getElem_mem hn) c hc'
+      omega
+    have hgetB : (run v 3 (P ++ [x])).lists[iB]? = some (preB ++ [z]) := by
+      rw [List.getElem?_eq_getElem hiB, hiBl]
+    have hgetM : (run v 3 (P ++ [x])).lists[i0]? = some (run v 3 (P ++ [x])).lists[i0] :=
+      List.getElem?_eq_getElem (by omega)
+    have hMsum : binSum v (run v 3 (P ++ [x])).lists[i0] = minL (run v 3 (P ++ [x])).sums := by
+      rw [← hLi0]; exact (hsumof i0 (by omega)).symm
+    have hpB := hpref _ hlB preB.length (by simp)
+    rw [List.take_left' rfl] at hpB
+    have hsortB := hsort _ hlB
+    rw [List.pairwise_append] at hsortB
+    have key := three_mixed (v := v) hL preB z (run v 3 P).lists[j] x (run v 3 (P ++ [x])).lists[i0]
+      (by
+        have e2 : binSum v ((run v 3 P).lists[j] ++ [x]) = minL (run v 3 P).sums + v x := by
+          rw [Oracle.binSum_concat, hsC']
+        rw [e2, hMsum]
+        have e : binSum v (P ++ [x]) = sumL ((P ++ [x]).map v) := rfl
+        omega)
+      (by omega) (by omega) hpB (by omega)
+      (by have := hy2 iB hiB z (by rw [hiBl]; exact hztail); exact this)
+      (by omega)
+      (fun u hu => hxmin j (by omega) u (by rw [hlCl]; simp [hu]))
+      (fun u hu => hxmin i0 (by omega) u hu)
+      (fun u hu => hsortB.2.2 u hu z (by simp))
+      (ha2 iB i0 preB z _ hiBi0 hgetB hgetM)
+      (ha2 iB j preB z _ hiBj hgetB hlC)
+      (hpref _ hlB)
+      (by have := hpref _ (List.getElem_mem (show j < _ by omega)); rwa [hlCl] at this)
+      (hpref _ (List.getElem_mem (show i0 < _ by omega)))
+      (by have := hy2 iB hiB; rwa [hiBl] at this)
+      (by have := hy2 j (by omega); rwa [hlCl] at this)
+      (hy2 i0 (by omega))
+    obtain ⟨kB, kC, kM⟩ := key
+    refine count_core (W := W) (k := 3) (vals := (P ++ [x]).map v)
+      ((run v 3 (P ++ [x])).lists.map (List.map v)) Q (by simpa using hlists)
+      (by rw [← List.map_flatten]; exact hperm.map v) hQk hQp
+      (fun g hg => wt_cover (by omega) g (hQ g hg)) ?_
+      ⟨_, List.mem_map_of_mem (List.getElem_mem (show i0 < _ by omega)), kM⟩
+    intro l' hl'
+    obtain ⟨l, hl, rfl⟩ := List.mem_map.1 hl'
+    obtain ⟨n, hn, rfl⟩ := List.mem_iff_getElem.1 hl
+    have hn3 : n = iB ∨ n = j ∨ n = i0 := by omega
+    rcases hn3 with rfl | rfl | rfl
+    · rw [hiBl]; exact kB
+    · rw [hlCl]; exact kC
+    · omega
+
+/-- **C08 for three bins (Csirik–Kellerer–Woeginger, `k = 3`)**: LPT's smallest sum is at least `8/10` of the
+    optimal smallest sum. -/
+theorem greedy_maxmin_three {v : α → Nat} {items : List α} {opt : Nat}
+    (hopt : IsOptimalValue .maxSmallest 3 (items.map v) (-(opt : Int))) :
+    8 * opt ≤ 10 * minL (greedy v 3 items).sums := by
+  obtain ⟨W, hW, Q, hQk, hQp, hQ⟩ := cover_of_opt (by decide) hopt
+  have hW' : W = opt := by exact_mod_cast hW
+  subst hW'
+  have key := run_maxmin_three (v := v) (sortDesc v items) (Part.sortDesc_sorted v items) W Q hQk
+    (hQp.trans ((Part.sortDesc_perm v items).map v).symm) hQ
+  rw [greedy_eq_run]
+  omega
+
+/-- non-vacuity and tightness: `[5, 5, 4, 4, 3, 3, 3, 3]` on three bins: the optimum `{5,5}, {4,3,3}, {4,3,3}` has
+    smallest sum `10`, LPT builds `{5,3,3}, {5,3,3}, {4,4}` with smallest sum `8`: `8·10 = 10·8` -/
+theorem optmin_55443333 :
+    IsOptimalValue .maxSmallest 3 ([5, 5, 4, 4, 3, 3, 3, 3].map id) (-((10 : Nat) : Int)) := by
+  refine ⟨⟨[0, 0, 1, 2, 1, 1, 2, 2], ⟨rfl, by decide⟩, by decide⟩, ?_⟩
+  intro asg hasg
+  obtain ⟨Q, hQk, hQp, hQs⟩ := assignment_partition hasg
+  have h1 := length_mul_minL_le (sumsOf 3 ([5, 5, 4, 4, 3, 3, 3, 3].map id) asg)
+  rw [← hQs, ← sumL_flatten, Part.sumL_perm hQp, List.length_map, hQk] at h1
+  simp only [Objective.value, Bool.false_eq_true, if_false]
+  have : sumL ([5, 5, 4, 4, 3, 3, 3, 3].map id) = 30 := by decide
+  rw [← hQs]
+  omega
+
+example : 8 * 10 ≤ 10 * minL (greedy id 3 [5, 5, 4, 4, 3, 3, 3, 3]).sums :=
+  greedy_maxmin_three (v := id) optmin_55443333
+example : 8 * 10 = 10 * minL (greedy id 3 [5, 5, 4, 4, 3, 3, 3, 3]).sums := by decide
+
+/-- non-vacuity of the mixed case of the proof: `[6, 6, 5, 5, 4, 4, 4, 3]` on three bins, optimum
+    `{6,6}, {5,4,3}, {5,4,4}` with smallest sum `12`; LPT builds `{6,4,4}, {6,4,3}, {5,5}`: the last item `3` is
+    small (`10·3 ≤ 3·12`), lands on the second bin, and the first bin exceeds the smallest sum `10` by
+    `4 > 3.6` -/
+theorem optmin_66554443 :
+    IsOptimalValue .maxSmallest 3 ([6, 6, 5, 5, 4, 4, 4, 3].map id) (-((12 : Nat) : Int)) := by
+  refine ⟨⟨[0, 0, 1, 2, 1, 2, 2, 1], ⟨rfl, by decide⟩, by decide⟩, ?_⟩
+  intro asg hasg
+  obtain ⟨Q, hQk, hQp, hQs⟩ := assignment_partition hasg
+  have h1 := length_mul_minL_le (sumsOf 3 ([6, 6, 5, 5, 4, 4, 4, 3].map id) asg)
+  rw [← hQs, ← sumL_flatten, Part.sumL_perm hQp, List.length_map, hQk] at h1
+  simp only [Objective.value, Bool.false_eq_true, if_false]
+  have : sumL ([6, 6, 5, 5, 4, 4, 4, 3].map id) = 37 := by decide
+  rw [← hQs]
+  omega
+
+example : 8 * 12 ≤ 10 * minL (greedy id 3 [6, 6, 5, 5, 4, 4, 4, 3]).sums :=
+  greedy_maxmin_three (v := id) optmin_66554443
+example : minL (greedy id 3 [6, 6, 5, 5, 4, 4, 4, 3]).sums = 10 := by decide
+
+/-! ## 8. Every number of bins: reduction to the mixed case -/
+
+/-- **The general theorem, reduced to its mixed case.**  The induction over the number of bins and over the
+    prefixes of the ordered list proves the exact bound `(3k−1)·W ≤ (4k−2)·L` for every `k ≤ K`, *provided* the
+    following situation is handled for every `2 ≤ k ≤ K` (hypothesis `hmix`): the last (smallest) item `x` has
+    value `≤ k·W/(4k−2)`, it was not put on the bin of smallest final sum, the `(k+1)`-th value is `≤ L/2`, and
+    some bin with at least two items exceeds `L` by more than `k·W/(4k−2)`.
+    For `k = 2` this situation cannot occur, for `k = 3` it is `three_mixed`; these are `run_maxmin_two` and
+    `run_maxmin_three`.  For `k ≥ 4` it is the part of the Csirik–Kellerer–Woeginger theorem that is not
+    formalised here. -/
+theorem run_maxmin_of_mixed {v : α → Nat} (K : Nat)
+    (hmix : ∀ k, 2 ≤ k → k ≤ K → ∀ (P : List α) (x : α) (W : Nat) (Q : List (List Nat)),
+      (P ++ [x]).Pairwise (fun a c => v c ≤ v a) → Q.length = k → Q.flatten.Perm ((P ++ [x]).map v) →
+      (∀ l ∈ Q, W ≤ sumL l) →
+      minL (run v k (P ++ [x])).sums ≠ minL (run v k P).sums + v x →
+      2 * ((P ++ [x]).map v).getD k 0 ≤ minL (run v k (P ++ [x])).sums →
+      (∃ l ∈ (run v k (P ++ [x])).lists, 2 ≤ l.length ∧
+        minL (run v k (P ++ [x])).sums + k * W / (4 * k - 2) < binSum v l) →
+      (4 * k - 2) * v x ≤ k * W →
+      3 * k * W + 2 * minL (run v k (P ++ [x])).sums ≤ 4 * k * minL (run v k (P ++ [x])).sums + W) :
+    ∀ k, 0 < k → k ≤ K → ∀ (xs : List α), xs.Pairwise (fun a c => v c ≤ v a) →
+    ∀ (W : Nat) (Q : List (List Nat)), Q.length = k → Q.flatten.Perm (xs.map v) → (∀ l ∈ Q, W ≤ sumL l) →
+    3 * k * W + 2 * minL (run v k xs).sums ≤ 4 * k * minL (run v k xs).sums + W := by
+  intro k
+  induction k with
+  | zero => intro h; omega
+  | succ k' ihk =>
+    intro hk hkK xs
+    by_cases hk' : k' = 0
+    · subst hk'
+      intro hS W Q hQk hQp hQ
+      have hsp := run_spread hk hS Q hQk hQp hQ
+      simp only [Nat.zero_add, Nat.one_mul, Nat.mul_one] at hsp ⊢
+      omega
+    have hk'pos : 0 < k' := Nat.pos_of_ne_zero hk'
+    induction xs using Oracle.rev_induction with
+    | nil =>
+      intro _ W Q hQk hQp hQ
+      have := cover_nil_level hk Q hQk (by simpa using hQp) hQ
+      subst this
+      simp only [Nat.mul_zero, Nat.zero_add, Nat.add_zero]
+      exact Nat.mul_le_mul_right _ (by omega)
+    | snoc P x ih =>
+      intro hS W Q hQk hQp hQ
+      obtain ⟨hSP, _, hPx⟩ := List.pairwise_append.1 hS
+      by_cases hT : minL (run v (k' + 1) (P ++ [x])).sums = minL (run v (k' + 1) P).sums + v x
+      · exact run_snoc_onmin hk P x Q hQk hQp hQ (fun W' Q' h1 h2 h3 => ih hSP W' Q' h1 h2 h3) hT
+      by_cases hy : minL (run v (k' + 1) (P ++ [x])).sums < 2 * ((P ++ [x]).map v).getD (k' + 1) 0
+      · have hklt' := getD_pos_lt ((P ++ [x]).map v) (k' + 1) (by omega)
+        have hklt : k' + 1 < (P ++ [x]).length := by simpa using hklt'
+        have ey : ((P ++ [x]).map v).getD (k' + 1) 0 = v (P ++ [x])[k' + 1] := by
+          rw [getD_eq_getElem' _ _ hklt', List.getElem_map]
+        rw [ey] at hy
+        obtain ⟨ys, hsub, hL', _, Q', hQ'k, hQ'p, hQ'⟩ :=
+          peel_first_pair hk'pos hS hklt hy Q hQk hQp hQ
+        have key := ihk hk'pos (by omega) ys (hS.sublist hsub) W Q' hQ'k hQ'p hQ'
+        rw [hL'] at key
+        exact arith_exact_step hk'pos key
+      by_cases hcert : ∀ l ∈ (run v (k' + 1) (P ++ [x])).lists,
+          l.length ≤ 1 ∨ binSum v l ≤ minL (run v (k' + 1) (P ++ [x])).sums +
+            (k' + 1) * W / (4 * (k' + 1) - 2)
+      · exact run_maxmin_cert hk Q hQk hQp hQ _ hcert
+          (by rw [Nat.mul_comm]; exact Nat.div_mul_le_self _ _)
+      by_cases hxbig : (k' + 1) * W < (4 * (k' + 1) - 2) * v x
+      · refine run_large_exact hk hS Q hQk hQp hQ ?_
+        intro a ha
+        have hax : v x ≤ v a := by
+          rcases List.mem_append.1 ha with ha | ha
+          · exact hPx a ha x (by simp)
+          · simp at ha; rw [ha]
+        exact Nat.lt_of_lt_of_le hxbig (Nat.mul_le_mul_left _ hax)
+      · simp only [not_forall, not_or, Nat.not_le] at hcert
+        obtain ⟨lB, hlB, hlen2, hBbig⟩ := hcert
+        exact hmix (k' + 1) (by omega) hkK P x W Q hS hQk hQp hQ hT (by omega)
+          ⟨lB, hlB, by omega, hBbig⟩ (by omega)
+
+/-- **C08 for every number of bins, reduced to the mixed case** (see `run_maxmin_of_mixed`).
+
+    Requested:
+      `theorem greedy_maxmin {v : α → Nat} {k : Nat} {items : List α} (hk : 0 < k) {opt : Nat}`
+      `    (hopt : IsOptimalValue .maxSmallest k (items.map v) (-(opt : Int))) :`
+      `    (3 * k - 1) * opt ≤ (4 * k - 2) * minL (greedy v k items).sums`
+    This is proved for `k = 2` (`greedy_maxmin_two`) and `k = 3` (`greedy_maxmin_three`).  For `k ≥ 4` what is
+    missing is exactly the hypothesis `hmix`: in the LPT run on `P ++ [x]` (ordered) the smallest item `x` is
+    `≤ k·W/(4k−2)` and was put on a bin that does not have the smallest final sum, the `(k+1)`-th value is `≤ L/2`,
+    and some bin with at least two items (it then consists of items `> k·W/(4k−2)` only) exceeds `L` by more than
+    `k·W/(4k−2)`.  (All other cases — last item on the bin of smallest sum, first pair closed, all bins with two
+    items within `k·W/(4k−2)` of `L`, all items large — are proved for every `k`.)  In this case the known proofs
+    count the large items per bin and bound the total of the small ones; exhaustive search (all multisets of `≤ 9`
+    values `≤ 10`, `k ≤ 4`, and random instances up to `k = 9`) found no violation of the bound. -/
+theorem greedy_maxmin_partial {v : α → Nat} (K : Nat)
+    (hmix : ∀ k, 2 ≤ k → k ≤ K → ∀ (P : List α) (x : α) (W : Nat) (Q : List (List Nat)),
+      (P ++ [x]).Pairwise (fun a c => v c ≤ v a) → Q.length = k → Q.flatten.Perm ((P ++ [x]).map v) →
+      (∀ l ∈ Q, W ≤ sumL l) →
+      minL (run v k (P ++ [x])).sums ≠ minL (run v k P).sums + v x →
+      2 * ((P ++ [x]).map v).getD k 0 ≤ minL (run v k (P ++ [x])).sums →
+      (∃ l ∈ (run v k (P ++ [x])).lists, 2 ≤ l.length ∧
+        minL (run v k (P ++ [x])).sums + k * W / (4 * k - 2) < binSum v l) →
+      (4 * k - 2) * v x ≤ k * W →
+      3 * k * W + 2 * minL (run v k (P ++ [x])).sums ≤ 4 * k * minL (run v k (P ++ [x])).sums + W)
+    {k : Nat} (hk : 0 < k) (hkK : k ≤ K) {items : List α} {opt : Nat}
+    (hopt : IsOptimalValue .maxSmallest k (items.map v) (-(opt : Int))) :
+    (3 * k - 1) * opt ≤ (4 * k - 2) * minL (greedy v k items).sums := by
+  obtain ⟨W, hW, Q, hQk, hQp, hQ⟩ := cover_of_opt hk hopt
+  have hW' : W = opt := by exact_mod_cast hW
+  subst hW'
+  rw [greedy_eq_run]
+  exact arith_final hk (run_maxmin_of_mixed K hmix k hk hkK (sortDesc v items) (Part.sortDesc_sorted v items) W Q
+    hQk (hQp.trans ((Part.sortDesc_perm v items).map v).symm) hQ)
+
+/-- **Max-min, ratio `3/4`, for at most three bins** (Deuermeyer–Friesen–Langston).
+
+    Requested: `greedy_maxmin_partial_three_quarters` for every `k`, i.e.
+      `3 * opt ≤ 4 * minL (greedy v k items).sums`   without the hypothesis `k ≤ 3`.
+    For `k ≥ 4` this needs the mixed case of `run_maxmin_of_mixed` (large items whose bins are far above the
+    smallest sum together with small items at the end of the list), which is not formalised. -/
+theorem greedy_maxmin_partial_three_quarters {v : α → Nat} {k : Nat} {items : List α} (hk : 0 < k) (hk3 : k ≤ 3)
+    {opt : Nat} (hopt : IsOptimalValue .maxSmallest k (items.map v) (-(opt : Int))) :
+    3 * opt ≤ 4 * minL (greedy v k items).sums := by
+  have key := greedy_maxmin_partial_2k_3k hk hopt
+  have h : k = 1 ∨ k = 2 ∨ k = 3 := by omega
+  rcases h with rfl | rfl | rfl <;> omega
+
+example : 3 * 10 ≤ 4 * minL (greedy id 3 [5, 5, 4, 4, 3, 3, 3, 3]).sums :=
+  greedy_maxmin_partial_three_quarters (v := id) (by decide) (by decide) optmin_55443333
 
 end Prtpy.MaxMin3
